@@ -438,8 +438,11 @@ def jobs(tier, seed):
         common.env_setup()
         worker_init()
     rnd = random.Random(seed)
-    ps = [(), (0x66,)] if tier == 'quick' else [(), (0x66,), (0x67,), (0xF3,), (0x2E,)]
-    ej = E.make_jobs(tier, seed, prefix_sets=ps, sib='min', per_signature=(tier == 'quick'))
+    if tier == 'quick':
+        # every row without prefix (hidden state is per instruction: a sample of rows would miss e.g. pushfd), one row per signature under 66
+        ej = E.make_jobs(tier, seed, prefix_sets=[()], sib='min', per_signature=False) + E.make_jobs(tier, seed, prefix_sets=[(0x66,)], sib='min', per_signature=True)
+    else:
+        ej = E.make_jobs(tier, seed, prefix_sets=[(), (0x66,), (0x67,), (0xF3,), (0x2E,)], sib='min', per_signature=False)
     out = [('dis12', j, tier) for j in ej]
     out.append(('asm12', tier, list(ASM_LINES)))
     return out
